@@ -282,13 +282,18 @@ class DistributionController(Component, Controller):
         for section in disconnected_sections:
             sensors = unique(
                 [
-                    switch.line.sensor
-                    for switch in section.switches
-                    if switch.line.sensor is not None
+                    line.sensor
+                    for line in section.lines
+                    if line.sensor is not None
                 ]
             )
             num_fails = 0
             need_manual_attention = False
+            # Lines without sensor must be inspected manually
+            for line in section.lines:
+                if line.sensor is None:
+                    need_manual_attention = True
+                    num_fails += 1 if line.failed else 0
             # Loop sensors and count failed ones
             for sensor in sensors:
                 # If no ICT network
@@ -330,13 +335,18 @@ class DistributionController(Component, Controller):
         for section in connected_sections:
             sensors = unique(
                 [
-                    switch.line.sensor
-                    for switch in section.switches
-                    if switch.line.sensor is not None
+                    line.sensor
+                    for line in section.lines
+                    if line.sensor is not None
                 ]
             )
             num_fails = 0
             need_manual_attention = False
+            # Lines without sensor must be inspected manually
+            for line in section.lines:
+                if line.sensor is None:
+                    need_manual_attention = True
+                    num_fails += 1 if line.failed else 0
             # Loop sensors and count failed ones
             for sensor in sensors:
                 # If no ICT network
